@@ -4,20 +4,25 @@ import glob, json, os
 V = os.path.dirname(os.path.dirname(os.path.abspath(__file__)))
 out = open(os.path.join(V, "design_parts", "00_main.md")).read().rstrip() + "\n\n"
 out += "## 10. Seeded changes: which check catches which\n\n"
-out += ("Forty changes to the library were written by fresh sub-agents that were given only the text of one property and a scratch\n"
+out += ("Eighty changes to the library (two rounds, four per property) were written by fresh sub-agents that were given only the text of one property and a scratch\n"
         "worktree (nothing from /verif). Each is kept under `/verif/seeded/<id>/` (patch.diff, demo.py, meta.json) and was confirmed\n"
         "in a scratch worktree: the repository tests give the same result with the change, the demonstration passes without and fails\n"
         "with it. `harness/seeded.py run` applies each change in a scratch worktree (never in /repo) and runs the listed checks with\n"
-        "`AY_REPO=<worktree>`. After the `fix:` commits some changes no longer apply / manifest (noted).\n\n")
+        "`AY_REPO=<worktree>`. After the `fix:` commits some changes no longer apply / manifest (noted); patches whose context moved were\n"
+        "rebased by hand and confirmed again (`rebased` in meta.json, the delivered patch is kept as patch_original.diff). Where a change is\n"
+        "not caught by the check of the property it was written for, the check that does catch it is listed. Every change of round 2\n"
+        "that was missed at first led to an extension of a universe, a formula or the harness (sections 5/C01, C04, C06, C08, C10, C11, C14, C15, C17).\n\n")
 out += "| id | what it breaks / needs | confirmed on HEAD | detected by (quick tier) |\n|---|---|---|---|\n"
 for d in sorted(glob.glob(os.path.join(V, "seeded", "*"))):
     m = json.load(open(os.path.join(d, "meta.json")))
     c = m.get("confirmation", {})
-    conf = "yes" if c.get("confirmed") else ("patch no longer applies" if not c.get("applies_to_head") else
+    conf = ("obsolete: " + m["obsolete"][:160]) if m.get("obsolete") else ("yes (rebased)" if m.get("rebased") and c.get("confirmed") else "yes") if c.get("confirmed") or m.get("obsolete") else ("patch no longer applies" if not c.get("applies_to_head") else
             ("fails the (now fully running) repo tests: " + str(c.get("tests_with_patch")) if c.get("tests_with_patch") != c.get("tests_without_patch")
              else "demo no longer fails (needed a since-fixed defect)"))
     det = m.get("detection", {})
     dets = ", ".join(f"{k}: {'VIOLATION' if v.get('violation') else 'not caught'}" for k, v in det.items()) or m.get("detection_note", "see text")
+    if m.get("obsolete"):
+        dets = "n/a (does not manifest on HEAD)"
     out += f"| {os.path.basename(d)} | {str(m.get('summary', ''))[:230].replace('|', '/').replace(chr(10), ' ')} | {conf} | {dets} |\n"
 out += "\n"
 out += "# Appendix C — per-property sections written by the sub-agents that built the checks\n\n"
